@@ -54,7 +54,7 @@ func Spec() *mon.Spec {
 
 func gen(g *mon.Gen) {
 	rng := g.Rng
-	combos := g.Pick(2, 24)
+	combos := g.Pick(4, 24)
 	for _, fr := range []int{0, 1} {
 		for _, fc := range []uint8{1, 2, 3, 4} {
 			for k := 0; k < combos; k++ {
@@ -63,16 +63,16 @@ func gen(g *mon.Gen) {
 				}
 			}
 		}
-		for k := 0; k < g.Pick(2, 24); k++ {
+		for k := 0; k < g.Pick(4, 24); k++ {
 			for lo := 0; lo <= 2100; lo += 300 {
 				g.Emit(&Case{Kind: "fc15", FC: 15, Framing: fr, Addr: libx.U16(rng), Unit: libx.U8(rng), TID: libx.U16(rng), Lo: lo, Hi: min(lo+299, 2100), Seed: rng.Int63()})
 			}
 			g.Emit(&Case{Kind: "fc15", FC: 15, Framing: fr, Addr: libx.U16(rng), Unit: libx.U8(rng), TID: libx.U16(rng), Lo: -1, Seed: rng.Int63()}) // sampled big counts
 		}
-		for k := 0; k < g.Pick(3, 100); k++ {
+		for k := 0; k < g.Pick(8, 100); k++ {
 			g.Emit(&Case{Kind: "fc16", FC: 16, Framing: fr, Addr: libx.U16(rng), Unit: libx.U8(rng), TID: libx.U16(rng), Lo: 0, Hi: 520, Seed: rng.Int63()})
 		}
-		for k := 0; k < g.Pick(1, 8); k++ {
+		for k := 0; k < g.Pick(2, 8); k++ {
 			for _, w := range []int{1, 2, 60, 120, 121} {
 				for lo := 0; lo < 65536; lo += 16384 {
 					g.Emit(&Case{Kind: "fc23r", FC: 23, Framing: fr, Addr: libx.U16(rng), Unit: libx.U8(rng), TID: libx.U16(rng), Lo: lo, Hi: lo + 16383, Fixed: w, Seed: rng.Int63()})
@@ -83,7 +83,7 @@ func gen(g *mon.Gen) {
 			g.Emit(&Case{Kind: "fc23w", FC: 23, Framing: fr, Addr: libx.U16(rng), Unit: libx.U8(rng), TID: libx.U16(rng), Lo: 0, Hi: 520, Fixed: rq, Seed: rng.Int63()})
 		}
 		for _, fc := range []uint8{5, 6, 17} {
-			for k := 0; k < g.Pick(4, 200); k++ {
+			for k := 0; k < g.Pick(12, 200); k++ {
 				g.Emit(&Case{Kind: "single", FC: fc, Framing: fr, Seed: rng.Int63()})
 			}
 		}
